@@ -542,9 +542,19 @@ fn is_canonical(prods: &[Alts], nnt: usize, nt: usize) -> bool {
     true
 }
 
+#[derive(Clone, Copy, PartialEq, Eq, Debug)]
+pub enum Pre {
+    All,
+    /// productive and reachable
+    WellFormedLr,
+    /// productive, reachable, not left-recursive
+    WellFormedLl,
+}
+
 /// Enumerate canonical BNF grammars of the space, simplest-first (by nnt, then nt, then
-/// lexicographic).  `filter` is applied before canonicity (cheap rejection).
-pub fn enum_bnf(sp: &BnfSpace, lalr: bool) -> Vec<Gram> {
+/// lexicographic).  `pre` is applied before the (more expensive) canonicity test.
+pub fn enum_bnf_pre(sp: &BnfSpace, lalr: bool, pre: Pre) -> Vec<Gram> {
+    use rayon::prelude::*;
     let mut out = vec![];
     for nnt in 1..=sp.max_nt {
         for nt in 0..=sp.max_t {
@@ -559,12 +569,19 @@ pub fn enum_bnf(sp: &BnfSpace, lalr: bool) -> Vec<Gram> {
                 cur: &mut Vec<Alts>,
                 used: usize,
                 lalr: bool,
+                pre: Pre,
                 out: &mut Vec<Gram>,
             ) {
                 if cur.len() == nnt {
-                    if is_canonical(cur, nnt, nt) {
-                        let prods =
-                            cur.iter().enumerate().map(|(i, a)| (i as u8, a.clone())).collect();
+                    let ok = match pre {
+                        Pre::All => true,
+                        _ => {
+                            let b = Bnf { nnt, nt, prods: cur.iter().enumerate().flat_map(|(i, a)| a.iter().map(move |s| (i as u8, s.clone()))).collect() };
+                            if pre == Pre::WellFormedLl { b.well_formed_ll() } else { b.well_formed_lr() }
+                        }
+                    };
+                    if ok && is_canonical(cur, nnt, nt) {
+                        let prods = cur.iter().enumerate().map(|(i, a)| (i as u8, a.clone())).collect();
                         out.push(Gram::simple(nnt, nt, prods, lalr));
                     }
                     return;
@@ -574,14 +591,32 @@ pub fn enum_bnf(sp: &BnfSpace, lalr: bool) -> Vec<Gram> {
                         continue;
                     }
                     cur.push(a.clone());
-                    rec(sets, nnt, nt, budget, cur, used + c, lalr, out);
+                    rec(sets, nnt, nt, budget, cur, used + c, lalr, pre, out);
                     cur.pop();
                 }
             }
-            rec(&sets, nnt, nt, sp.max_size, &mut vec![], 0, lalr, &mut out);
+            // parallel over the alternatives of the start symbol
+            let parts: Vec<Vec<Gram>> = sets
+                .par_iter()
+                .map(|(a, c)| {
+                    let mut o = vec![];
+                    if *c <= sp.max_size {
+                        let mut cur = vec![a.clone()];
+                        rec(&sets, nnt, nt, sp.max_size, &mut cur, *c, lalr, pre, &mut o);
+                    }
+                    o
+                })
+                .collect();
+            for p in parts {
+                out.extend(p);
+            }
         }
     }
     out
+}
+
+pub fn enum_bnf(sp: &BnfSpace, lalr: bool) -> Vec<Gram> {
+    enum_bnf_pre(sp, lalr, Pre::All)
 }
 
 // ---------------------------------------------------------------------------------------------
